@@ -137,6 +137,11 @@ private:
     }
   }
   static z_number pow2(unsigned k) { return z_number(1) << z_number((int64_t)k); }
+  // values that keep doubling in a loop make printing / comparing states slow: leave the model
+  static bool too_large(const z_number &x) {
+    static const z_number lim = z_number(1) << z_number((int64_t)256);
+    return x > lim || x < -lim;
+  }
   static z_number floor_div_pow2(const z_number &a, unsigned k) { return a >> z_number((int64_t)k); }
 
 public:
@@ -184,10 +189,12 @@ public:
       break;
     default: outside("unknown binop"); return;
     }
+    if (too_large(r)) { outside("value beyond 2^256"); return; }
     st->num[s.lhs()] = r;
   }
   void visit(assign_t &s) override {
     z_number r = eval(s.rhs());
+    if (ok() && too_large(r)) { outside("value beyond 2^256"); return; }
     if (ok())
       st->num[s.lhs()] = r;
   }
